@@ -439,13 +439,18 @@ def _jittered(draw, e):
 
 @st.composite
 def cases(draw):
-    tmpl = draw(st.sampled_from(['mixed', 'mixed', 'mixed', 'antimeridian', 'antimeridian', 'jitter_parallel', 'jitter_meridian']))
+    tmpl = draw(st.sampled_from(['mixed', 'mixed', 'mixed', 'antimeridian', 'antimeridian', 'jitter_parallel', 'jitter_meridian', 'long']))
+    if tmpl == 'long' and draw(st.integers(0, 9)) != 0:
+        tmpl = 'mixed'
     grid = draw(_grid(tmpl == 'antimeridian'))
     glat, glon = grid['glat'], grid['glon']
     wlat = glat[-1] - glat[-2]
     wlon = glon[-1] - glon[-2]
     lat_lo, lat_hi = glat[0], min(LAT_MAX, glat[-1] + wlat)
     n = draw(st.sampled_from([2, 2, 3, 3, 4, 5, 6, 8, 12, 25]))
+    if tmpl == 'long':
+        # hundreds of points (a real trajectory has that many): sizes around multiples of 256 points / segments
+        n = draw(st.sampled_from([257, 258, 300, 513, 514, 515, 600]))
     lats, lons = [], []
 
     def rand_lat():
@@ -537,6 +542,18 @@ def cases(draw):
                 lats.append(la)
                 lons.append(lo)
                 prev = (la, lo)
+        elif tmpl == 'long':
+            # a straight map line from one random point to another, sampled at n points
+            la0, lo0, la1, lo1 = rand_lat(), rand_lon(), rand_lat(), rand_lon()
+            if la1 == la0 and lo1 == lo0:
+                lo1 = lon_lo if lo0 != lon_lo else lon_hi
+            for i in range(n):
+                la = la0 + (la1 - la0) * (i / (n - 1))
+                lo = lo0 + (lo1 - lo0) * (i / (n - 1))
+                if lats:
+                    la, lo = _gap(la, lats[-1]), _gap(lo, lons[-1])
+                lats.append(min(max(la, lat_lo + NEAR), lat_hi))
+                lons.append(min(max(lo, lon_lo + NEAR), lon_hi))
         else:
             tmpl = 'mixed'
             prev = None
